@@ -42,7 +42,13 @@ type TailPlan struct {
 	// Far > 0: after the deliveries, one more Set lands Far bits beyond the
 	// initial offset (>= 2^31: a stored tail longer than an int32 can index;
 	// about 256 MiB of words), followed by probes there.
-	Far   int64           `json:"far,omitempty"`
+	Far int64 `json:"far,omitempty"`
+	// Dirty > 0: the TailBitmaps are not made by NewTailBitmap but are literals
+	// over a buffer the caller has used before — &TailBitmap{Offset: o, Words:
+	// buf[:0]} with Dirty words of capacity, all non-zero (the fields are
+	// exported, the library's own tests build literals). A word the bitmap
+	// grows into must still start as zero.
+	Dirty int             `json:"dirty,omitempty"`
 	Sched engine.Schedule `json:"sched"`
 }
 
@@ -184,6 +190,9 @@ func (Tail) Generate(seed uint64, tier string) engine.Plan {
 		p.CompactEv = r.PickInt(1, 3, 17, 100)
 	}
 	p.Instances = r.PickInt(1, 1, 1, 2, 2, 3)
+	if !big && r.Chance(1, 8) {
+		p.Dirty = r.PickInt(1, 2, 3, 16, 17, 1024, 1100)
+	}
 	if big {
 		p.Instances = 1
 	}
@@ -269,7 +278,17 @@ func (Tail) Execute(pl engine.Plan, c *engine.RunCtx) *engine.Failure {
 	insts := make([]*tailInst, nInst)
 	for k := range insts {
 		var t0 *bitmap.TailBitmap
-		if !guard(0, func() string { return "NewTailBitmap" }, func() { t0 = bitmap.NewTailBitmap(p.Offset) }) {
+		if p.Dirty > 0 {
+			buf := make([]uint64, p.Dirty)
+			for i := range buf {
+				buf[i] = 0xfeedface12345678 ^ uint64(i+k)*0x9e3779b97f4a7c15 | 1<<63
+				if i%3 == 2 {
+					buf[i] = allOnes
+				}
+			}
+			t0 = &bitmap.TailBitmap{Offset: p.Offset, Words: buf[:0]}
+			st.Inc("probe.C15.literal_over_a_used_buffer")
+		} else if !guard(0, func() string { return "NewTailBitmap" }, func() { t0 = bitmap.NewTailBitmap(p.Offset) }) {
 			return fail
 		}
 		insts[k] = &tailInst{tb: t0, S: map[int64]struct{}{}, firstHole: p.Offset, maxS: -1, prevOffset: t0.Offset, reclaimedModel: p.Offset}
